@@ -230,7 +230,7 @@ func VerifHarness_C05_KeyGrid() {
 	cdb := NewCachedDatabase(c04DB(false))
 	pick := func() SearchOptions {
 		return SearchOptions{
-			Limit:          []int{1, 10, 101}[verifIntRange("limit", 0, 2)],
+			Limit:          []int{1, 10, 101, 0, -4}[verifIntRange("limit", 0, 4)],
 			FuzzyThreshold: []int{0, 1, -30}[verifIntRange("threshold", 0, 2)],
 			TopTermsCap:    []int{0, 2, 12}[verifIntRange("termsCap", 0, 2)],
 			UseFuzzy:       true,
@@ -239,6 +239,30 @@ func VerifHarness_C05_KeyGrid() {
 	o1, o2 := pick(), pick()
 	c05Compare(cdb.Database, cdb.SearchWithOptionsAndCache("aa", o1), "aa", o1, "first request")
 	c05Compare(cdb.Database, cdb.SearchWithOptionsAndCache("aa", o2), "aa", o2, "second request, other integer options")
+	verifReach("searched")
+	verifReach("done")
+}
+
+// queries that differ in interior spacing are different requests where the engine reads the
+// text as typed (typo fallback, NLP context phrases)
+func VerifHarness_C05_Spacing() {
+	mk := func(cmd, desc string) Command {
+		c := Command{Command: cmd, Description: desc}
+		vFill(&c)
+		return c
+	}
+	db := &Database{Commands: []Command{mk("zq xw", "mm"), mk("zqxw", "nn"), mk("view file", "show file without opening it"), mk("oo", "pp")}}
+	db.BuildUniversalIndex()
+	db.buildTFIDFSearcher()
+	cdb := NewCachedDatabase(db)
+	pair := [][2]string{{"zq xw", "zq  xw"}, {"zqx w", "zqx  w"}, {"show file without opening", "show file without  opening"}}[verifIntRange("pair", 0, 2)]
+	first, second := pair[0], pair[1]
+	if verifBool("swap") {
+		first, second = second, first
+	}
+	o := SearchOptions{Limit: 5, UseFuzzy: true, FuzzyThreshold: 0, UseNLP: verifBool("nlp"), AllPlatforms: true}
+	c05Compare(cdb.Database, cdb.SearchWithOptionsAndCache(first, o), first, o, "first spelling")
+	c05Compare(cdb.Database, cdb.SearchWithOptionsAndCache(second, o), second, o, "second spelling (other interior spacing)")
 	verifReach("searched")
 	verifReach("done")
 }
